@@ -10,7 +10,6 @@ import (
 	"errors"
 	"fmt"
 	"os"
-	goruntime "runtime"
 	"slices"
 	"sort"
 	"sync"
@@ -653,7 +652,6 @@ func runBehaviour(t *testing.T, tr *vh.Trace, tid string, beh Beh, variant int) 
 			t.Fatal(err)
 		}
 
-		baseline := goruntime.NumGoroutine()
 
 		names := make([]string, 0, len(beh.Cfg))
 		for n := range beh.Cfg {
@@ -833,18 +831,11 @@ func runBehaviour(t *testing.T, tr *vh.Trace, tid string, beh Beh, variant int) 
 			time.Sleep(time.Second)
 			synctest.Wait()
 
-			leaked := goruntime.NumGoroutine() - baseline
-			note := ""
+			// goroutines still executing code of the repository after Run returned (counted by stack content: the process-wide
+			// goroutine count is noisy under load)
+			leaked, note := vh.GoroutinesIn("github.com/cosi-project/runtime/pkg/")
 
-			if leaked > 0 {
-				buf := make([]byte, 1<<16)
-				note = string(buf[:goruntime.Stack(buf, true)])
-				if len(note) > 3000 {
-					note = note[:3000]
-				}
-			}
-
-			r.emit(Line{Ev: "leak", N: max(leaked, 0), Note: note})
+			r.emit(Line{Ev: "leak", N: leaked, Note: note})
 			r.emit(Line{Ev: "end"})
 		}
 
@@ -977,8 +968,8 @@ func runBehaviour(t *testing.T, tr *vh.Trace, tid string, beh Beh, variant int) 
 		time.Sleep(time.Second)
 		synctest.Wait()
 
-		leaked := goruntime.NumGoroutine() - baseline
-		r.emit(Line{Ev: "leak", N: max(leaked, 0)})
+		leaked, note := vh.GoroutinesIn("github.com/cosi-project/runtime/pkg/")
+		r.emit(Line{Ev: "leak", N: leaked, Note: note})
 		r.emit(Line{Ev: "end"})
 	})
 }
